@@ -502,7 +502,13 @@ func (store dbStore) LoadValidators(height int64) (*types.ValidatorSet, error) {
 			return nil, err
 		}
 
-		vs.IncrementProposerPriority(tmmath.SafeConvertInt32(height - lastStoredHeight)) // mutate
+		// Replay the rotations the chain performed: one IncrementProposerPriority(1)
+		// per height. A single IncrementProposerPriority(n) rescales and centers only
+		// once and returns different priorities (and proposer) whenever a rescale
+		// would have triggered at one of the intermediate heights.
+		for h := lastStoredHeight; h < height; h++ {
+			vs.IncrementProposerPriority(1) // mutate
+		}
 		vi2, err := vs.ToProto()
 		if err != nil {
 			return nil, err
